@@ -388,14 +388,22 @@ Definition ev_abs (e : sev) : Z * bool :=
 Lemma floor_ms_inject : forall z, floor_ms (inject_Z z) = z / 1000.
 Proof. intros. rewrite floor_ms_div, Qfloor_inject. reflexivity. Qed.
 
-Lemma sami_spec_abs : forall cs i, map ev_abs (sami_spec (map cue_q cs) i) = sami_abs cs.
+Definition flip_blank (p : Z * bool) : Z * bool := (fst p, negb (snd p)).
+
+Lemma sami_rule_abs : forall cs, map flip_blank (sami_rule (map cue_q cs)) = sami_abs cs.
 Proof.
-  induction cs as [|[s e] t IH]; intros i; [reflexivity|].
-  cbn [map cue_q sami_spec fst snd sami_abs ev_abs]. rewrite floor_ms_inject. f_equal.
+  induction cs as [|[s e] t IH]; [reflexivity|].
+  cbn [map cue_q sami_rule fst snd sami_abs flip_blank negb]. rewrite floor_ms_inject. f_equal.
   rewrite map_app, IH.
   destruct t as [|[s' e'] t']; [reflexivity|].
   cbn [map cue_q fst snd]. rewrite !floor_ms_inject.
   destruct (s' / 1000 =? e / 1000); reflexivity.
+Qed.
+
+Lemma sami_spec_abs : forall cs, map ev_abs (sami_write (map cue_q cs)) = sami_abs cs.
+Proof.
+  intros cs. rewrite <- sami_rule_abs, <- sami_sync_rule. rewrite map_map. apply map_ext.
+  intros [ms i|ms]; reflexivity.
 Qed.
 
 Lemma sami_abs_incr : forall cs lo b, dom_u 1000 lo cs ->
@@ -461,9 +469,9 @@ Proof.
     cbn [dom_u] in *. unfold big_unit in Hu. destruct D as [E1 [E2 [E3 [E4 E5]]]].
     split; [lia|split; [lia|split; [lia|split; [lia|apply IH; exact E5]]]]. }
   split.
-  - cbn [hop pi]. rewrite sami_sync_rule.
+  - cbn [hop pi].
     (* the events as abstract paragraphs with unpadded start strings *)
-    set (evs := sami_spec (map cue_q cs) 0).
+    set (evs := sami_write (map cue_q cs)).
     assert (A : map ev_abs evs = sami_abs cs) by apply sami_spec_abs.
     pose (ps := map (fun p : Z * bool => mkSp 0 (fst p) (snd p)) (sami_abs cs)).
     assert (P1 : map (fun p => (sp_ms p, sp_text p)) ps = sami_abs cs).
